@@ -16,7 +16,7 @@ ASSUMPTIONS = [
 ]
 
 TOL = 1e-6
-WAITS = [0.0, 0.0251, 0.0703]
+WAITS = [0.0, 0.0251, 0.0703, 0.03, 0.05]  # the last two coincide with arrival gaps (ties: either outcome is legal, decided by the schedule)
 
 
 @st.composite
